@@ -32,6 +32,7 @@ def run(ctx):
     ctx.run_rule("S5", r_hazmat.rule_S5, cfgs)
     ctx.run_rule("Ff", r_flags.rule_F_fields, cfgs)
     std = [c for c in cfgs if c not in ("portable1", "asm-nostd")]
+    ctx.run_rule("LZ", r_state.rule_LZ, std)
     ctx.run_rule("I2", r_io.rule_I2, std)
     ctx.run_rule("I1", r_io.rule_I1, std)
     ctx.run_rule("I3", r_io.rule_I3, [c for c in std if c.endswith("-full")])
